@@ -17,8 +17,54 @@ fn full_output(cfg: &Config, call: &Call) -> (Res, Vec<u8>) {
     exec_call(&mut f, &c)
 }
 
+/// The same call through the stream adapters of metrique-writer/src/format.rs on a freshly built formatter:
+/// via 1 = `output_to(writer)`, via 2 = `output_to_makewriter(|| writer)` (a new writer handle per entry).
+/// Both hand the entry to `Format::format` with the underlying writer: result and received bytes must be those of
+/// the direct call.
+struct SharedWriter(Arc<Mutex<ScriptWriter>>);
+impl std::io::Write for SharedWriter {
+    fn write(&mut self, buf: &[u8]) -> std::io::Result<usize> { self.0.lock().unwrap().write(buf) }
+    fn write_vectored(&mut self, bufs: &[std::io::IoSlice<'_>]) -> std::io::Result<usize> { self.0.lock().unwrap().write_vectored(bufs) }
+    fn flush(&mut self) -> std::io::Result<()> { Ok(()) }
+}
+fn exec_call_via(cfg: &Config, call: &Call, via: u8) -> (Res, Vec<u8>) {
+    use metrique_writer::format::FormatExt;
+    let entry = ScriptEntry::new(&call.items);
+    let w = Arc::new(Mutex::new(ScriptWriter::new(&call.script)));
+    let f = build(cfg);
+    let r = if via == 1 {
+        let mut st = f.output_to(SharedWriter(w.clone()));
+        crate::common::catch(move || st.next(&entry))
+    } else {
+        let w2 = w.clone();
+        let mut st = f.output_to_makewriter(move || SharedWriter(w2.clone()));
+        crate::common::catch(move || st.next(&entry))
+    };
+    let res = match r {
+        None => Res::Panicked,
+        Some(Ok(())) => Res::Ok,
+        Some(Err(IoStreamError::Validation(e))) => Res::Validation(parse_debug_list(&format!("{:?}", e))),
+        Some(Err(IoStreamError::Io(e))) => Res::Io(e.kind() == std::io::ErrorKind::WriteZero),
+    };
+    let got = w.lock().unwrap().received.clone();
+    (res, got)
+}
+
 fn emit_a(out: &mut Out, case: &Case) {
     let (case_sx, imp_sx, raw) = exec_case(case, out);
+    // the stream adapters (unsampled calls): same result, same bytes as the direct call on a fresh formatter
+    for call in case.calls.iter().filter(|c| c.rate().is_none() && has_timestamp(&c.items)) {
+        let direct = exec_call(&mut build(&case.cfg), call);
+        let canon = |r: &(Res, Vec<u8>)| enc_res(&r.0, &r.1, false).to_string();
+        for via in [1u8, 2] {
+            let got = exec_call_via(&case.cfg, call, via);
+            if canon(&got) != canon(&direct) {
+                out.fail(format!("through {} the entry's result / received bytes differ from the direct Format::format call: {:?} ({} bytes) vs {:?} ({} bytes)",
+                    if via == 1 { "output_to" } else { "output_to_makewriter" }, got.0, got.1.len(), direct.0, direct.1.len()), &case_sx);
+            }
+            out.count(if via == 1 { "a_via_output_to" } else { "a_via_output_to_makewriter" });
+        }
+    }
     // property predicate on the implementation alone
     for (call, (res, bytes)) in case.calls.iter().zip(&raw) {
         let (full_res, full) = full_output(&case.cfg, call);
